@@ -115,6 +115,23 @@ def direct_property(md, src):
             return {"what": "rendering the same stream twice gives different output", "first": h1, "second": h2}
         if [t.as_dict() for t in tokens] != snap:
             return {"what": "second render changed the tokens"}
+        # the same stream as a plugin's core rule would leave it: attributes on the tokens (line numbers, classes)
+        deco = copy.deepcopy(tokens)
+        n = 0
+        for t in deco:
+            for x in [t] + list(t.children or []):
+                if x.type not in ("text", "inline", "softbreak", "hardbreak") and x.nesting >= 0:
+                    x.attrSet("data-line", str(n))
+                    if n % 2:
+                        x.attrJoin("class", "u")
+                    n += 1
+        d1 = md.renderer.render(deco, md.options, env)
+        snap = [t.as_dict() for t in deco]
+        d2 = md.renderer.render(deco, md.options, env)
+        if d1 != d2:
+            return {"what": "rendering the same stream (tokens carrying user attributes) twice gives different output", "first": d1[:600], "second": d2[:600]}
+        if [t.as_dict() for t in deco] != snap:
+            return {"what": "second render changed the tokens (tokens carrying user attributes)"}
     except Exception as e:  # noqa: BLE001
         return {"what": "render raised", "error": repr(e)}
     v = tree_consistency(tokens)
